@@ -62,7 +62,7 @@ func (p *Program) verifyFunction(name string, tier string, sink func(*Obligation
 	if len(f.Blocks) == 0 {
 		return res
 	}
-	s := &State{heap: map[string]T{}, heap0: map[string]T{}, lits: map[string]T{}, locks: map[string]string{}, ghost: map[string]T{}, dirty: map[string]bool{}, escaped: map[string]bool{}}
+	s := &State{heap: map[string]T{}, heap0: map[string]T{}, lits: map[string]T{}, locks: map[string]string{}, ghost: map[string]T{}, dirty: map[string]bool{}, escaped: map[string]bool{}, navOwner: map[string]string{}}
 	// parameters
 	var args []Val
 	for i, prm := range f.Params {
@@ -125,15 +125,32 @@ func (p *Program) verifyFunction(name string, tier string, sink func(*Obligation
 				x.unsupported("conforms: unknown field contract %s", fc.Conforms)
 			}
 		}
-		for _, kind := range []string{"captures", "requires"} {
-			for _, cl := range fc.clauses(kind) {
+		if fieldC != nil {
+			// a function stored where the field contract applies may only rely on what that contract requires
+			env0 := x.fieldEnv(s, fieldC, f, args, nil)
+			for _, cl := range fieldC.clauses("requires") {
+				if t, err := env0.evalBool(cl.Expr); err == nil {
+					s.assume(t)
+				} else {
+					x.unsupported("requires of %s: %v", fieldC.Key, err)
+				}
+			}
+		}
+		for _, kind := range []string{"captures", "assume", "requires"} {
+			for i, cl := range fc.clauses(kind) {
 				env := x.specEnvFor(s, kind)
 				t, err := env.evalBool(cl.Expr)
 				if err != nil {
 					x.unsupported("%s of %s: %v", kind, name, err)
 					continue
 				}
+				if kind == "requires" && fieldC != nil {
+					x.oblige(s, "conforms-requires", strings.TrimPrefix(fieldC.Key, "field ")+"#"+clauseLabel(cl, i), t, f.Pos(), cl.Props)
+				}
 				s.assume(t)
+				if kind == "assume" {
+					x.assumed["assumed in "+name+" ("+cl.Label+"): "+cl.Expr] = true
+				}
 			}
 		}
 		for _, cl := range fc.clauses("let") {
@@ -199,7 +216,7 @@ func (p *Program) verifyFunction(name string, tier string, sink func(*Obligation
 }
 
 func (x *Exec) coverEntry(s *State) {
-	if x.fnc != nil && x.fnc.Theory {
+	if x.fnc != nil && x.fnc.NoCover {
 		return // satisfiable queries over the quantified theory do not terminate; covered by the finite-carrier check
 	}
 	x.cover(s, "entry")
@@ -311,7 +328,7 @@ func (x *Exec) atReturn(s *State, f *ssa.Function, fc, fieldC *FuncContract, arg
 			x.oblige(s, "locks", "held-at-return:"+sanitize(k), TFalse, pos, nil)
 		}
 	}
-	if x.coverN < 4 && !(x.fnc != nil && x.fnc.Theory) {
+	if x.coverN < 4 && !(x.fnc != nil && x.fnc.NoCover) {
 		x.coverN++
 		x.cover(s, "return")
 	}
